@@ -4,6 +4,7 @@ import os
 
 import checks_flow as cf
 import checks_pool as cp
+import checks_spl as cs
 import gen
 import vlib
 from runner import Check
@@ -150,7 +151,18 @@ def plan_C10(ck):
               nontrivial=cf.nontrivial_world)
 
 
-PLANS = {"C10": plan_C10, "C11": plan_C11, "C09": plan_C09, "C16": plan_C16, "C01": plan_C01, "C02": plan_C02, "C03": plan_C03, "C04": plan_C04, "C05": plan_C05, "C06": plan_C06,
+def plan_C12(ck):
+    q = ck.tier == "quick"
+    ck.traces(cs.spl_contract_cases(ck.seed + 12, 150 if q else 4000, 5 if q else 7, "C12"), ["C12"], tag="c12",
+              nontrivial=cf.nontrivial_world, sample_events=("Spl",))
+
+
+def plan_C13(ck):
+    q = ck.tier == "quick"
+    ck.traces(cs.spl_exact_cases(ck.seed + 13, 300 if q else 6000, "C13"), ["C13"], tag="c13", sample_events=("Spl",))
+
+
+PLANS = {"C12": plan_C12, "C13": plan_C13, "C10": plan_C10, "C11": plan_C11, "C09": plan_C09, "C16": plan_C16, "C01": plan_C01, "C02": plan_C02, "C03": plan_C03, "C04": plan_C04, "C05": plan_C05, "C06": plan_C06,
          "C19": plan_C19}
 
 
